@@ -27,6 +27,12 @@ def run_demo(src, wt, meta):
         for cand in ("internal/engine", "patch", "internal/parse", "internal/pgo", "internal/parse/section", "internal/pgo/augment", "internal/astdiff"):
             if cand in dm:
                 d = cand
+        import re as _re
+        m = _re.search(r"(?m)^package (\w+)", open(os.path.join(src, tests[0])).read())
+        pkgdirs = {"main": ".", "patch": "patch", "patch_test": "patch", "engine": "internal/engine", "section": "internal/parse/section",
+                   "parse": "internal/parse", "pgo": "internal/pgo", "augment": "internal/pgo/augment", "astdiff": "internal/astdiff"}
+        if m and m.group(1) in pkgdirs:
+            d = pkgdirs[m.group(1)]
         dst = os.path.join(wt, d, "zz_seeded_demo_test.go")
         shutil.copy(os.path.join(src, tests[0]), dst)
         rc, out = sh(f"go test -count=1 -run TestSeededDemo ./{d}", wt, timeout=600)
